@@ -288,13 +288,14 @@ impl QuicMultiplexer {
                     quic_conn.close(false, QUIC_CONNECTION_CLOSE_CODE, e.to_string().as_bytes());
             }
 
-            if let Some(timeout) = quic_conn.timeout() {
-                self.update_connection_deadline(conn_id, timeout);
-            }
-
             if let Err(e) = flush_pending_data(&mut quic_conn, &self.socket, &entry.peer, &self.id)
             {
                 log_id!(debug, self.id, "Failed to flush QUIC connection: {}", e);
+            }
+
+            // After the flush: the packets sent just now are what the loss detection timer is for
+            if let Some(timeout) = quic_conn.timeout() {
+                self.update_connection_deadline(conn_id, timeout);
             }
         }
 
